@@ -7,6 +7,7 @@
   code (decodable or not). `payload_read` ties the list back to the bytes on disk.
 -/
 import TdfProofs.Lemmas.Layout
+import TdfProofs.Lemmas.Foreign
 import TdfProofs.Lemmas.ReadBack
 import TdfProofs.Properties.C02
 namespace Tdf.C04
@@ -148,5 +149,25 @@ theorem read_after_add (l : Lay) (ok : l.Ok) (b : Wire.AnyBlock) (c : Str) (now 
     exact hdup y hy heq
   exact read_back _ hsim.2 l.bs [] (newBlock (C02.argOf b.typ b cd md) b.enc c now) b
     (by simp [Lay.add]) hpre hv rfl rfl rfl
+
+
+/-- FOREIGN FILES, table level (`_partial`): on ANY table — entries in any order, gaps between the blocks — `remove_block` leaves
+    the other entries in their table order with their type, format code, size, three dates and comment as they were; an offset
+    changes only by the removed block's size and only for an entry whose data lay after the removed block. (The byte level — that
+    the payload bytes move with the offsets — is what `frame_step` proves for compact layouts and what the frame-condition oracle
+    checks on permuted and gappy files.) -/
+theorem remove_any_table_frame_partial (s : TdfSt) (t : Nat) (now : Int) (pos : Nat) (hfind : findType t s.entries = some pos) :
+    let old := s.entries.getD pos unusedEntry
+    ∃ fresh : Entry, fresh.typ = 0 ∧ fresh.size = 0 ∧
+      (removeBlock s t now).1.entries = (s.entries.take pos ++ s.entries.drop (pos + 1)).map (shiftAfter old) ++ [fresh]
+      ∧ ∀ x : Entry, (shiftAfter old x).typ = x.typ ∧ (shiftAfter old x).fmt = x.fmt ∧ (shiftAfter old x).size = x.size
+          ∧ (shiftAfter old x).cdate = x.cdate ∧ (shiftAfter old x).mdate = x.mdate ∧ (shiftAfter old x).adate = x.adate
+          ∧ (shiftAfter old x).comment = x.comment
+          ∧ ((shiftAfter old x).off = if x.off > old.off then x.off - old.size else x.off) := by
+  intro old
+  refine ⟨_, rfl, rfl, removeBlock_entries s t now pos hfind, ?_⟩
+  intro x
+  unfold shiftAfter
+  split <;> simp [*]
 
 end Tdf.C04
